@@ -15,6 +15,16 @@
 static volatile int *phase; /* shared with the parent: 0 nothing written, 1 configuration written, 2 row complete */
 #include "EbSvtAv1Enc.h"
 #include "gen/cfg_fields.h"
+#include "verif_rt.h"
+
+static unsigned g_period = 20;
+static void on_alarm(int s) {
+    (void)s;
+    if (vrt_alarm_should_wait(g_period, 8))
+        return;
+    signal(SIGALRM, SIG_DFL);
+    raise(SIGALRM);
+}
 
 static const CfgField *find_field(const char *name) {
     for (size_t i = 0; i < CFG_NFIELDS; i++)
@@ -140,6 +150,8 @@ int main(int argc, char **argv) {
         *phase = 0;
         pid_t pid = fork();
         if (pid == 0) {
+            g_period = (unsigned)tmo;
+            signal(SIGALRM, on_alarm);
             alarm((unsigned)tmo);
             run_case(line, o, idx);
             fflush(o);
